@@ -21,7 +21,7 @@ def run(ctx):
     missing = [n for n in names if n not in reg]
     if missing:
         raise vf.Infra("schema types without a Go registry entry: %s" % missing)
-    cc.mc_codec(ctx, k)
+    cc.mc_codec(ctx, k, part="pairs")
     if ctx.replay:
         lines = vf.read_lines(ctx.replay)
     else:
